@@ -116,6 +116,12 @@ def callers(facts, rep, want, pidx):
                     # `count >= value` is `value <= count`
                     op, xs, ys = {"Lt": "Gt", "Gt": "Lt", "Le": "Ge", "Ge": "Le"}.get(op, op), ys, xs
                 if E.same(xs, subj) and is_fragment_count(ys):
+                    # the test may be written as the rejection (`if n > count { continue; }`): which edge leads to the send decides
+                    if ce.true_target is not None and ce.false_target is not None:
+                        via_t = bb in fc.mir.reachable(ce.true_target, removed_blocks=[sbb])
+                        via_f = bb in fc.mir.reachable(ce.false_target, removed_blocks=[sbb])
+                        if via_f and not via_t:
+                            op = {"Lt": "Ge", "Ge": "Lt", "Gt": "Le", "Le": "Gt", "Eq": "Ne", "Ne": "Eq"}.get(op, op)
                     good = {"B0": ("Lt",), "B1": ("Le",)}.get(sb, ())
                     rep.add("R05a", ob.sname, "bound test of a %s fragment value against the fragment count" % sb, op in good,
                             "`%s %s count` is wrong for a %s value: %s" % (fc.show(subj)[:60], op, sb,
